@@ -1,5 +1,6 @@
 import Dbg.Spec.C03
 import Dbg.Lemmas.GraphProofs
+import Dbg.Lemmas.GraphSym
 /-! # C03 — Extensions and edges denote exactly the real adjacencies, symmetrically
 
 Proved so far, for every graph of the model (any nodes, any K): a link returned by `find_link` points to a node whose
@@ -74,5 +75,19 @@ theorem C03_maxPath_sequence (g : G D) (hK : 1 ≤ g.K) (hl : ∀ (i : Nat) (n :
   have hw := maxPath_walk g score solid
   rw [hp] at hw ⊢
   exact walk_sequence g hK hl p0 rest (hw.nodes p0 (by simp)) (fun p h => hw.nodes p (by simp [h])) (hw.chain p0 rest rfl)
+
+/-- **C03 (symmetry).** In every graph satisfying the node-level invariant `GInv` (nodes of at least K bases, terminal
+    k-mers identify their node and side, extensions reciprocal — a palindromic single-k-mer node records them from either
+    strand): whenever `(v, s, f)` is reported from side `d` of `u`, node `v` reports `u` back, from the facing side `s`
+    arriving at side `d` — the two sides of a palindromic single-k-mer node counting as one.  `GInv` is decidable
+    (`ginvOK`, `ginvOK_sound`) and is evaluated on every graph the crate builds in the pipeline requests. -/
+theorem C03_edges_symmetric (g : G D) (hg : GInv g) (u : Nat) (d : Dir) (es : List (Nat × Dir × Bool))
+    (he : findEdges g u d = some es) (v : Nat) (s : Dir) (f : Bool) (hm : (v, s, f) ∈ es) : ReachesBack g u d v s :=
+  edges_symmetric g hg u d es he v s f hm
+
+theorem C03_ginv_decidable (g : G D) (h : ginvOK g = true) : GInv g := ginvOK_sound g h
+
+/-- non-vacuity: two nodes ACGT→CGTA-like chain satisfies the invariant (K = 3, stranded) -/
+example : ginvOK (⟨3, [⟨[0,1,2,3], ⟨0x10⟩, ()⟩, ⟨[2,3,0,0], ⟨0x02⟩, ()⟩], true⟩ : G Unit) = true := by decide
 
 end Graph
